@@ -29,6 +29,7 @@ type container struct {
 	typ      [4]byte
 	present  [4]bool // block has a type byte and data
 	plain    [4][]byte
+	blkLen   [4]uint64 // when non-zero: the block-length varint to write instead of the true length
 }
 
 var (
@@ -129,7 +130,11 @@ func (c *container) build() []byte {
 		default:
 			enc = c.plain[s]
 		}
-		put(uint64(len(enc) + 1))
+		if c.blkLen[s] != 0 {
+			put(c.blkLen[s])
+		} else {
+			put(uint64(len(enc) + 1))
+		}
 		body = append(body, c.typ[s])
 		body = append(body, enc...)
 	}
@@ -560,6 +565,16 @@ func runC19(w *W) {
 					m.secSize[sec] = uint64(len(m.plain[sec]))
 					w.c19Try(st, "section-cut:"+s.name, m.build())
 				}
+			}
+		}
+		// block-length varints: huge, wrapping and off-by-one values
+		for sec := 0; sec < 4; sec++ {
+			true1 := uint64(len(c.plain[sec]) + 1)
+			for _, v := range []uint64{1<<63 + 2, 1 << 63, 1<<63 + 1, ^uint64(0), ^uint64(0) - 1, 1 << 62, 1 << 32, 1<<31 + 1, true1 + 1, true1 - 1, 1, 2, uint64(len(blob)), uint64(len(blob)) + 1} {
+				m := c.clone()
+				m.present[sec] = true
+				m.blkLen[sec] = v
+				w.c19Try(st, "block-length:"+s.name, m.build())
 			}
 		}
 		// block types
